@@ -41,13 +41,13 @@ Proof.
     + apply N.compare_eq in E. subst y. rewrite (IH b Hl Ha' Hb'), <- Hdb.
       destruct (da ?= db) eqn:E2; symmetry.
       * apply N.compare_eq in E2. apply N.compare_eq_iff. congruence.
-      * apply N.compare_lt_iff in E2. apply N.compare_lt_iff. apply N.add_lt_mono_l. exact E2.
-      * apply N.compare_gt_iff in E2. apply N.compare_gt_iff. apply N.add_lt_mono_l. exact E2.
-    + apply N.compare_lt_iff in E. symmetry. apply N.compare_lt_iff.
+      * rewrite N.compare_lt_iff in E2. apply N.compare_lt_iff. apply N.add_lt_mono_l. exact E2.
+      * rewrite N.compare_gt_iff in E2. apply N.compare_gt_iff. apply N.add_lt_mono_l. exact E2.
+    + rewrite N.compare_lt_iff in E. symmetry. apply N.compare_lt_iff.
       assert (H : x + 1 <= y) by lia.
       apply (N.mul_le_mono_r _ _ P) in H. rewrite N.mul_add_distr_r, N.mul_1_l in H.
       remember (x * P) as xp. remember (y * P) as yp. clear - H Ba Bb. lia.
-    + apply N.compare_gt_iff in E. symmetry. apply N.compare_gt_iff.
+    + rewrite N.compare_gt_iff in E. symmetry. apply N.compare_gt_iff.
       assert (H : y + 1 <= x) by lia.
       apply (N.mul_le_mono_r _ _ P) in H. rewrite N.mul_add_distr_r, N.mul_1_l in H.
       remember (x * P) as xp. remember (y * P) as yp. clear - H Ba Bb. lia.
@@ -133,8 +133,8 @@ Lemma is_prefix_other kg kg' t key : kg < 65536 -> kg' < 65536 -> kg <> kg' -> i
 Proof.
   intros H H' Hne. destruct (is_prefix (pfx kg) (timer_key kg' t key)) eqn:E; [|reflexivity].
   exfalso. apply Hne. apply be16_inj; auto.
-  unfold pfx, timer_key, be16 in *. cbn in E.
-  repeat (apply andb_true_iff in E as [?%N.eqb_eq E]). congruence.
+  unfold pfx, timer_key, be16 in *. cbn [app is_prefix] in E.
+  apply andb_true_iff in E as [E1%N.eqb_eq E]. apply andb_true_iff in E as [E2%N.eqb_eq _]. congruence.
 Qed.
 
 (* timestamps order the timestamp bytes *)
@@ -146,8 +146,8 @@ Proof.
   rewrite bcmp_be64 by (change (2 ^ 64) with (2 * 2 ^ 63); lia).
   destruct H1, H2. destruct (Z.to_N t1 ?= Z.to_N t2) eqn:E.
   - apply N.compare_eq in E. lia.
-  - apply N.compare_lt_iff in E. lia.
-  - apply N.compare_gt_iff in E. lia.
+  - rewrite N.compare_lt_iff in E. lia.
+  - rewrite N.compare_gt_iff in E. lia.
 Qed.
 
 (* inside one group the byte order refines the timestamp order *)
@@ -159,7 +159,7 @@ Proof.
   rewrite bcmp_be64 by (change (2 ^ 64) with (2 * 2 ^ 63); lia).
   destruct H1, H2. destruct (Z.to_N t1 ?= Z.to_N t2) eqn:E; intros C.
   - apply N.compare_eq in E. lia.
-  - apply N.compare_lt_iff in E. lia.
+  - rewrite N.compare_lt_iff in E. lia.
   - discriminate.
 Qed.
 
